@@ -35,7 +35,7 @@ ASSUMPTIONS = [
 ]
 REQUIRED_REACH = {"monitor.baseline_metrics": 300, "contract.safe_divide": 1000, "monitor.reporting_metrics": 50,
                   "monitor.caltrack_metrics": 50, "monitor.hourly_stored_vs_predict": 3, "monitor.hourly_gate": 6,
-                  "monitor.daily_error": 4, "monitor.daily_gate": 4, "ratio.undefined_expected": 20, "monitor.hourly_gate_undefined_metric": 2, "monitor.hourly_gate_undefined_metric_straddled": 3, "monitor.daily_model_object_reused": 2}
+                  "monitor.daily_error": 4, "monitor.daily_gate": 4, "ratio.undefined_expected": 20, "monitor.hourly_gate_undefined_metric": 2, "monitor.hourly_gate_undefined_metric_straddled": 3, "data.hourly_weather_gaps_away_from_meter_gaps": 4, "monitor.daily_model_object_reused": 2}
 
 VIOL = []
 CTX = {"where": "direct"}
@@ -334,6 +334,12 @@ def _hourly_fit(spec, rng, keys, hist):
         df["observed"] = np.abs(rng.normal(1, 1.5, len(df))) + 0.01
     gaps = rng.choice(len(df), size=int(0.02 * len(df)), replace=False)
     df.iloc[gaps, df.columns.get_loc("observed")] = np.nan     # -> interpolated hours
+    # weather gaps at OTHER hours than the meter gaps (a real reading with an interpolated temperature is an interpolated hour too)
+    others = np.setdiff1d(np.arange(len(df)), gaps)
+    for col in [c for c in ("temperature", "ghi") if c in df.columns]:
+        wg = rng.choice(others, size=int(0.01 * len(df)), replace=False)
+        df.iloc[wg, df.columns.get_loc(col)] = np.nan
+    I.reach("data.hourly_weather_gaps_away_from_meter_gaps")
     if spec.get("net_metered_zero_mean"):
         # mean usage of the hours that count (not interpolated) ~ 0: CVRMSE is undefined, PNRMSE is not
         df["observed"] = df["observed"] - float(df["observed"].mean(skipna=True))
